@@ -192,7 +192,7 @@ flenp_buffer_encode_n(const LengthPrefixKind k,
         return -EINVAL;
     }
     const int rc = flenp_memory_encode(k, lpb, b->data + b->offset, n);
-    b->offset += rest;
+    b->offset += n;
     return rc;
 }
 
@@ -267,8 +267,8 @@ flenp_buffer_to_sink_n(const LengthPrefixKind k,
     if (n > rest) {
         return -EINVAL;
     }
-    const int rc = flenp_memory_to_sink(k, sink, b->data + b->offset, rest);
-    b->offset += rest;
+    const int rc = flenp_memory_to_sink(k, sink, b->data + b->offset, n);
+    b->offset += n;
     return rc;
 }
 
